@@ -410,7 +410,7 @@ func (c *Ctx) tok8Complete(blockSig, clearSig *ssa.Function) {
 		}
 		a.done(1, "every block of one signal is followed by the release of the other")
 	}
-	c.S.Floor("TOK-8", "signal blocks paired with a release", n, 4)
+	c.S.Floor("TOK-8", "signal blocks paired with a release", n, 2)
 }
 
 type tokEnv struct {
